@@ -113,6 +113,7 @@ inductive Err where
   | expired | premature | conditionNotOk | audience | unknownCondition
   | noSubject | noAttesting | unknownMethod | noScData | noRecipient | noValidSc | bearerUnknownIrt | cameFrom
   | eitherUnsigned | unknownBinding
+  | timeForm        -- a timestamp attribute is not in the UTC form the library reads (Model/SpLex.lean)
 deriving Repr, DecidableEq, Inhabited
 
 /-- Does the pass-2 handler (`except SignatureError`) catch this error? -/
